@@ -20,7 +20,6 @@ Proof. intros A m H s c E. exfalso. eapply H. eassumption. Qed.
 Lemma noob_vunsup : forall A c, oob c = false -> noob (@vunsup A c).
 Proof. intros A c H s c' E. inversion E; subst. assumption. Qed.
 
-Ltac prim := apply noob_total; intros s c; cbv beta delta -[rd wr fill Z.add Z.sub Z.ltb Z.leb Z.eqb Z.geb Z.gtb nth nth_error app length] iota zeta; try discriminate.
 
 Lemma noob_vret : forall A (a : A), noob (vret a). Proof. intros. apply noob_total. discriminate. Qed.
 Lemma noob_vraise : forall A v, noob (@vraise A v). Proof. intros. apply noob_total. discriminate. Qed.
@@ -130,6 +129,20 @@ Proof. intros. unfold initCallFrame. noob_tac. Qed.
 Lemma noob_pushCallFrame : forall ofn b lb rb na nr fn meta, noob (pushCallFrame ofn b lb rb na nr fn meta).
 Proof. intros. unfold pushCallFrame. noob_tac. Qed.
 #[export] Hint Resolve noob_pushCallFrame : noob.
+
+Lemma noob_upd_thread : forall t f, noob (upd_thread t f).
+Proof. intros. unfold upd_thread. auto with noob. Qed.
+#[export] Hint Resolve noob_upd_thread : noob.
+
+Lemma noob_reg_get_range : forall n lo, noob (reg_get_range lo n).
+Proof. induction n; intros; simpl; noob_tac. Qed.
+Lemma noob_reg_push_list : forall vs, noob (reg_push_list vs).
+Proof. induction vs; simpl; noob_tac. Qed.
+#[export] Hint Resolve noob_reg_get_range noob_reg_push_list : noob.
+
+Lemma noob_switchToParentThread : forall n h k, noob (switchToParentThread n h k).
+Proof. intros. unfold switchToParentThread. noob_tac. Qed.
+#[export] Hint Resolve noob_switchToParentThread : noob.
 
 Lemma noob_tailcall_lua : forall cf ca lv me na ra, noob (tailcall_lua cf ca lv me na ra).
 Proof. intros. unfold tailcall_lua. noob_tac. Qed.
@@ -243,6 +256,16 @@ Proof.
   - auto with noob.
 Qed.
 
+(* a register operand of a function whose frame fits the limit is never read as a constant *)
+Lemma rkValue_reg : forall p lb x, 0 <= x -> xp_nregs p <= W.frame_limit -> W.reg_ok (fn_of p) x = true ->
+  rkValue p lb x = reg_get (lb + x).
+Proof.
+  intros p lb x Hx Hl H. unfold rkValue. apply VM.WfFacts.reg_ok_lt in H.
+  destruct (fn_of_fields p) as [_ [_ [_ [_ [_ Hn]]]]]. rewrite Hn in H.
+  unfold W.frame_limit in Hl.
+  rewrite VM.WfFacts.small_not_K by lia. reflexivity.
+Qed.
+
 Lemma kstring_noob : forall p i, 0 <= i -> W.str_const (fn_of p) i = true -> noob (kstring p i).
 Proof.
   intros p i Hi H. unfold kstring. destruct (str_const_in_range p i Hi H) as [s Hs]. rewrite Hs. auto with noob.
@@ -293,13 +316,24 @@ Proof. intros A B a f H s c E. unfold vbind, vret in E. eapply H. eassumption. Q
 Lemma word_of_zth : forall code t w, zth code t = Some w -> W.word code t = w.
 Proof. intros code t w H. unfold W.word. rewrite pzth_eq. rewrite H. reflexivity. Qed.
 
+Lemma capture_loop_S : forall p cl lbase k pc acc,
+  capture_loop p cl lbase (S k) pc acc =
+  vdo inst <- code_at p pc;
+  match op_of_code (opGetOpCode inst) with
+  | Some OP_MOVE => vdo u <- findUpvalue (lbase + opGetArgB inst); capture_loop p cl lbase k (pc + 1) (u :: acc)
+  | Some OP_GETUPVAL => vdo u <- get_upval cl (opGetArgB inst); capture_loop p cl lbase k (pc + 1) (u :: acc)
+  | _ => vunsup 105
+  end.
+Proof. reflexivity. Qed.
+
 Lemma capture_loop_noob : forall cl lbase k pc acc,
   closure_ok cl ->
   (forall t, pc <= t < pc + Z.of_nat k ->
       W.capture_ok (fn_of (cl_proto cl)) (W.tags_of (fn_of (cl_proto cl))) t = true) ->
   noob (capture_loop (cl_proto cl) cl lbase k pc acc).
 Proof.
-  intros cl lbase k. induction k; intros pc acc Hc H; simpl; [auto with noob|].
+  intros cl lbase k. induction k; intros pc acc Hc H; [apply noob_vret|].
+  rewrite capture_loop_S.
   assert (Hcap := H pc ltac:(lia)).
   pose proof (VM.WfFacts.capture_facts _ _ Hcap) as [Hr _].
   destruct (fn_of_fields (cl_proto cl)) as [Hcode [_ [_ [_ [Hnup _]]]]].
@@ -317,10 +351,10 @@ Proof.
 Qed.
 
 Lemma loadnil_loop_noob : forall k i, noob (loadnil_loop i k).
-Proof. induction k; intros; simpl; noob_tac. Qed.
+Proof. induction k; intros; cbn [loadnil_loop]; noob_tac. Qed.
 
 Lemma setlist_loop_noob : forall k tb ra off i, noob (setlist_loop tb ra off i k).
-Proof. induction k; intros; simpl; noob_tac. Qed.
+Proof. induction k; intros; cbn [setlist_loop]; noob_tac. Qed.
 
 #[export] Hint Resolve loadnil_loop_noob setlist_loop_noob getA_nonneg getB_nonneg getC_nonneg getBx_nonneg
   rkValue_noob kstring_noob rkString_noob get_upval_noob : noob.
@@ -343,14 +377,79 @@ Hint Resolve noob_callR noob_Call noob_getField noob_setField noob_objectArith n
 (* every instruction except OP_TFORLOOP (see the note at wf_exec_op_noob) *)
 Theorem wf_exec_op_noob_lemma : forall cl cf inst base o,
   closure_ok cl ->
+  xp_nregs (cl_proto cl) <= W.frame_limit ->
   0 <= fr_pc cf - 1 ->
   op_of_code (opGetOpCode inst) = Some o ->
   W.inst_ok (fn_of (cl_proto cl)) (W.tags_of (fn_of (cl_proto cl))) (fr_pc cf - 1) inst = true ->
   o <> OP_TFORLOOP ->
   noob (exec_op ml gf cl cf inst base).
 Proof.
-  intros cl cf inst base o Hcl Hpc Hop H Hno.
+  intros cl cf inst base o Hcl Hregs Hpc Hop H Hno.
   destruct (fn_of_fields (cl_proto cl)) as [Hcode [Hkinds [Hnsc [Hnups [Hnup Hnregs]]]]].
   unfold exec_op. rewrite Hop. unfold W.inst_ok in H. rewrite Hop in H.
   destruct o; cbn [W.modes_ok opProps Type_ ModeArgB ModeArgC W.mode_ok] in H; split_ands;
     try solve [noob_tac].
+  - (* OP_MOVEN *)
+    apply noob_bind; [auto with noob|intro v]. apply noob_bind; [auto with noob|intros _].
+    apply noob_bind; [|intro; noob_tac].
+    apply MOVEN_loop_noob. intros t Ht.
+    pose proof (VM.WfFacts.words_ok_spec _ _ _ H1 t) as Hw.
+    rewrite Z2Nat.id in * by apply getC_nonneg.
+    specialize (Hw ltac:(lia)).
+    apply VM.WfFacts.moven_tail_facts in Hw. destruct Hw as [Hr _].
+    rewrite Hcode in Hr. rewrite plen_eq in Hr. exact Hr.
+  - (* OP_LOADK *)
+    destruct (const_in_range (cl_proto cl) (opGetArgBx inst) (getBx_nonneg inst) H) as [v Hv].
+    rewrite Hv. noob_tac.
+  - (* OP_UNM: the operand mode is R, the code reads it with rkValue *)
+    rewrite (rkValue_reg _ _ _ (getB_nonneg inst) Hregs H). noob_tac.
+  - (* OP_LEN *)
+    rewrite (rkValue_reg _ _ _ (getB_nonneg inst) Hregs H). noob_tac.
+  - exfalso. apply Hno. reflexivity.
+  - (* OP_SETLIST *)
+    apply noob_bind; [|intro; noob_tac].
+    destruct (opGetArgC inst =? 0) eqn:EC; [|auto with noob].
+    split_ands.
+    match goal with Hx : W.tag_is _ _ 3 = true |- _ => pose proof Hx as Ht end.
+    apply VM.WfFacts.tag_is_range in Ht. rewrite VM.WfFacts.tags_len in Ht. rewrite Hcode in Ht. rewrite plen_eq in Ht.
+    apply noob_bind; [apply code_at_noob; lia|intro; noob_tac].
+  - (* OP_CLOSURE *)
+    assert (HBx : opGetArgBx inst < len (xp_subs (cl_proto cl))).
+    { match goal with Hx : (opGetArgBx inst <? _) = true |- _ => rewrite Hnups in Hx; rewrite plen_eq in Hx; unfold len in Hx; rewrite map_length in Hx end.
+      unfold len. lia. }
+    destruct (zth_some_range _ (xp_subs (cl_proto cl)) (opGetArgBx inst)) as [proto Hp]; [pose proof (getBx_nonneg inst); lia|].
+    rewrite Hp.
+    assert (Hk : fst (W.group_of (fn_of (cl_proto cl)) inst) = xp_nup proto).
+    { unfold W.group_of. rewrite Hop. rewrite Hnups. rewrite pzth_eq.
+      unfold zth in *. destruct (opGetArgBx inst <? 0); [discriminate|].
+      rewrite nth_error_map. rewrite Hp. reflexivity. }
+    apply noob_bind; [auto with noob|intro ci]. apply noob_bind; [auto with noob|intros _].
+    apply noob_bind; [|intro; noob_tac].
+    apply capture_loop_noob; [assumption|]. intros t Ht.
+    match goal with Hx : W.words_ok _ _ _ = true |- _ => rewrite Hk in Hx; pose proof (VM.WfFacts.words_ok_spec _ _ _ Hx t) as Hw end.
+    apply Hw. lia.
+Qed.
+
+End Main.
+
+(* the same from the whole-function verdict of C07's checker: at every instruction head of a
+   function that passes wf_fn, the instruction the VM model fetches there (any opcode but
+   OP_TFORLOOP) executes without an out-of-range access of its own *)
+Theorem wf_step_noob_lemma : forall ml gf cl cf inst base o,
+  (forall b, noob (ml b)) -> (forall b, noob (gf b)) ->
+  W.wf_fn (fn_of (cl_proto cl)) = true ->
+  closure_ok cl ->
+  VM.WfFacts.pc_ok (fn_of (cl_proto cl)) (fr_pc cf - 1) ->
+  zth (xp_code (cl_proto cl)) (fr_pc cf - 1) = Some inst ->
+  op_of_code (opGetOpCode inst) = Some o -> o <> OP_TFORLOOP ->
+  noob (exec_op ml gf cl cf inst base).
+Proof.
+  intros ml gf cl cf inst base o Hml Hgf Hwf Hcl Hpc Hz Hop Hno.
+  destruct (VM.WfFacts.head_inst_ok _ _ Hwf Hpc) as [w [Hw Hok]].
+  destruct (fn_of_fields (cl_proto cl)) as [Hcode [_ [_ [_ [_ Hnregs]]]]].
+  rewrite Hcode in Hw. rewrite pzth_eq in Hw. rewrite Hz in Hw. inversion Hw; subst w.
+  pose proof (VM.WfFacts.wf_fn_facts _ Hwf) as [_ [_ [_ [_ [_ [Hlim _]]]]]].
+  rewrite Hnregs in Hlim.
+  pose proof (VM.WfFacts.pc_ok_range _ _ Hpc) as Hr.
+  eapply wf_exec_op_noob_lemma; eauto. lia.
+Qed.
